@@ -23,8 +23,7 @@ import pysam
 import gffutils
 import pyfaidx
 
-from src.gtf2db import convert_gtf_to_db
-from src.file_utils import dump_json_atomically
+from src.gtf2db import convert_gtf_to_db, dump_json_atomically
 from src.read_mapper import (
     DATA_TYPE_ALIASES,
     SUPPORTED_STRANDEDNESS,
